@@ -15,7 +15,7 @@ func init() {
 		ID:  "C09",
 		Run: runC09,
 		Rule: "complete product: skip source x include source in {absent, literal true/false, variable true/false, variable defaulted true/false} (49) x written order (2) " +
-			"x selection kind {field, inline fragment, fragment spread} x depth {1,2,3} x strategy configurations; oracle = inclusion formula via the reference executor incl. resolver call set; " +
+			"x selection kind {field, inline fragment, fragment spread} x depth {1,2,3} x strategy configurations; plus every ordered pair of variable assignments resolved on ONE parsed executable; oracle = inclusion formula via the reference executor incl. resolver call set; " +
 			"distinct = table cells; non-trivial = at least one directive present",
 		Technique:      "complete enumeration of a finite table on the real resolver against the inclusion formula",
 		Assumptions:    []string{"reference executor implements: included iff not(skip true) and not(include false)"},
@@ -135,5 +135,80 @@ func runC09(c *core.Ctx) {
 			}
 		}
 	}
-	c.R.Bound = "complete table 49 x 2 x 3 x 3 x configurations"
+	// ---- reuse: ONE parsed executable resolved under every assignment of the two variables in every order of two calls
+	// (the verdict of a variable condition must not stick to the parsed request)
+	for kind := 0; kind < 3; kind++ {
+		for order := 0; order < 2; order++ {
+			for first := 0; first < 4; first++ {
+				for second := 0; second < 4; second++ {
+					idx++
+					if !c.OwnsIdx(idx) {
+						continue
+					}
+					c.Nontrivial()
+					dirs := []world.Dir{{Name: "skip", If: world.VarRef("sk")}, {Name: "include", If: world.VarRef("inc")}}
+					if order == 1 {
+						dirs[0], dirs[1] = dirs[1], dirs[0]
+					}
+					inner := world.F("mkid", world.F("id"), world.F("mi"))
+					d := &world.Doc{}
+					var target *world.Sel
+					switch kind {
+					case 0:
+						target = inner.With(dirs...)
+					case 1:
+						target = world.In("", inner).With(dirs...)
+					case 2:
+						target = world.Sp("FX").With(dirs...)
+						d.Frags = []*world.Frag{{Name: "FX", Cond: "Query", Sels: []*world.Sel{inner}}}
+					}
+					d.Ops = []*world.Op{{Type: "query", Name: "Q", Vars: []world.VarDef{{Name: "sk", Type: "Boolean", HasDefault: true, Default: false}, {Name: "inc", Type: "Boolean", HasDefault: true, Default: true}},
+						Sels: []*world.Sel{target, world.F("i")}}}
+					text := d.Render(world.LOneLine)
+					for _, nc := range configsFor(s, d.Features(s), false) {
+						g := g0
+						if nc.Cfg.Strat == world.FS {
+							g = gfs
+						}
+						root, run, err := world.BuildRoot(nc.Cfg, g)
+						if err != nil {
+							panic(core.EngineError{Msg: err.Error()})
+						}
+						exe, perr := root.ParseExecutableString(text)
+						if perr != nil {
+							panic(core.EngineError{Msg: "C09 reuse document refused: " + perr.Error()})
+						}
+						for step, code := range []int{first, second} {
+							vars := map[string]interface{}{"sk": code&1 == 1, "inc": code&2 == 0}
+							ex := world.RefExec(s, g, d, "Q", vars, nil, world.RefOpts{})
+							c.Eval()
+							run.Log = nil
+							var res map[string]interface{}
+							var rerr error
+							if pi := core.Safe(func() { res, rerr = root.ResolveExecutable(exe, "Q", vars) }); pi != nil {
+								c.Violation("panic", map[string]string{"site": pi.Site, "class": pi.Class}, map[string]interface{}{"query": text, "vars": vars})
+								break
+							}
+							o := &world.Obs{}
+							if res == nil {
+								res = map[string]interface{}{}
+							}
+							if rerr != nil {
+								res["errors"] = []interface{}{map[string]interface{}{"message": rerr.Error()}}
+							}
+							o.FillFrom(res, run)
+							if k, msg := compareExpect(s, g, ex, o, nc.Cfg.Strat, true); k != "" {
+								c.Outcome("reuse-" + k)
+								c.Violation(k, map[string]string{"reuse": "same-parsed-executable", "selection": []string{"field", "inline", "spread"}[kind], "step": fmt.Sprint(step)},
+									worldCase{Config: nc.Name, Query: text, Op: "Q", Vars: vars, Expected: map[string]interface{}{"data": ex.Data}, Observed: o, Diff: fmt.Sprintf("call %d on one parsed executable: %s", step+1, msg)})
+								break
+							}
+							c.Outcome("reuse-agree")
+						}
+					}
+				}
+			}
+		}
+	}
+	c.R.Bound = "complete table 49 x 2 x 3 x 3 x configurations; + all ordered pairs of variable assignments on one parsed executable"
 }
